@@ -46,6 +46,10 @@ func (g guardedAction) String() string {
 	return strings.Join(g.Guard, " && ") + " => " + g.Action
 }
 
+// guardedForceEmit: statements the flattening must list even when it would inline them (definitions of locals): set by
+// callers that want the guards of one particular statement (atomsAt).
+var guardedForceEmit map[ast.Node]bool
+
 // guardedActions flattens the statements under root (a function body, literal body or block of f).
 func guardedActions(f *FuncInfo, root ast.Node) []guardedAction {
 	info := f.Info()
@@ -349,6 +353,9 @@ func guardedActions(f *FuncInfo, root ast.Node) []guardedAction {
 		case *ast.LabeledStmt:
 			walk(x.Stmt, guard)
 		case *ast.AssignStmt:
+			if guardedForceEmit != nil && guardedForceEmit[x] {
+				emit(x, guard, "stmt")
+			}
 			for i, l := range x.Lhs {
 				if singleDefLocal(l) || neverRead(l) {
 					continue
